@@ -68,6 +68,19 @@ PROPS["C01"] = dict(
                   "mathematical definitions on Z"],
     assumptions=["shift counts are >= 0 (Go uint)", "the 64-bit platform int"],
 )
+PROPS["C11"] = dict(
+    n_quick=30000, n_thorough=1500000, shards=8,
+    rule="cases: programs of 2-14 steps that create values (errs.New, plain errors, nil, typed-nil *Error, typed-nil foreign error, &Error{}), "
+         "Append them (accumulator = any earlier value incl. the latest result, 0-4 arguments drawn from earlier values incl. aggregates and "
+         "the accumulator itself) and Wrap/WrapTyped them; after EVERY step the rendering (Count, ordered messages of WrappedErrors, "
+         "ErrorOrNil) of EVERY value built so far, pointer identity of the result, errors.Is/As reachability of plain causes, and the "
+         "%s/%q/%v/%+v renderings. non-trivial = program with at least one Append; distinct = distinct case text",
+    trivial_class=r"(trivial|^bad$|^exn$)",
+    trusted_base=["node-level aliasing inside chains is not modelled: the public API only hands out chain heads and distinct heads never share "
+                  "nodes (every argument is copied); the harness's per-step snapshot of every value is what checks that",
+                  "stack-trace text (runtime.Callers) is checked by the harness only"],
+    assumptions=["a nil pointer of a foreign error type is not used as a list argument (Go treats it as a non-nil error and calls its Error method)"],
+)
 
 # properties not (yet) claimed, with the reason; an entry is dropped automatically once the property is in PROPS
 NOT_APPLICABLE = {
@@ -76,6 +89,15 @@ NOT_APPLICABLE = {
 }
 
 MANIFEST_TEXT = {
+    "C11": dict(
+        level_text="Proof: in the store model of errs, Append(acc, args) yields exactly items(acc) ++ items(args...) in order (aggregates "
+                   "flattened), is nil exactly when that list is empty, returns a non-empty *Error accumulator itself, leaves every other "
+                   "head unchanged (frame), repeated Appends concatenate; Wrap/WrapTyped give nil for nil and typed nil, return an *Error "
+                   "unchanged and otherwise a fresh error carrying the cause -- Coq theorems for all stores and argument lists. The model is "
+                   "compared with the real package after every step of generated programs, with the content of every value snapshotted.",
+        level_note="Trusted: Coq kernel, extraction, drivers, harness; chains are lists per head (node aliasing not modelled, checked by snapshots); "
+                   "stack trace text is harness-checked only.",
+        technique="Coq proof (fold invariant with frame condition) on a hand-written Gallina model + differential correspondence check"),
     "C01": dict(
         level_text="Proof: Add/Sub/Mul/Inc/Dec and the 64-bit variants equal arithmetic mod 2^128; Cmp and all 11+10 predicates equal the order on "
                    "the values; And/Or/Xor/AndNot/Not (+64 variants), Bit, SetBit, BitLen, LeadingZeros, TrailingZeros, OnesCount equal the "
